@@ -656,7 +656,8 @@ class String(Value):
 
     _printable = string.printable[:-4]
     def _needsQuoting(self, s):
-        return any([x not in self._printable for x in s]) and s.strip() != s
+        return (any([x not in self._printable for x in s]) and s.strip() != s) \
+            or (len(s) > 0 and s[0] == s[-1] and s[0] in '\'"')
 
     def __str__(self):
         s = self.value
